@@ -146,25 +146,9 @@ Theorem C07_regenerated_float_restore_float64 : forall b : list N,
 Proof. exact gen_float_restore_float64_eq. Qed.
 Print Assumptions C07_regenerated_float_restore_float64.
 
-(* codec + tree + nodes, ALL REGENERATED, in one loop (Proofs/TranslateRunAllFacts.v): the numeric trees run with the
-   key bytes produced by the regenerated Transform of Gen/KeysGen.v (not the model's encoders) and the returned keys
-   read back by the regenerated Restore, through the regenerated Insert / Delete / Search and thin methods, give on
-   every history_ok history over all twelve operations the outputs of Model/Api.run = the reference map *)
-From GoArt Require Import Model.Api Spec.Ideal Model.GoHeap Proofs.TranslateMutFacts Proofs.TranslateRunFacts Proofs.TranslateRunAllFacts.
-Theorem C07_regenerated_codec_in_the_loop : forall evs,
-  (Forall unsigned64_op (map fst evs) -> history_ok (KUnsigned 8) (map fst evs) = true -> short_keys2 (KUnsigned 8) (map fst evs) ->
-   g_unsigned64_run evs g_init = snd (Api.run (KUnsigned 8) Api.init (map fst evs)) /\
-   g_unsigned64_run evs g_init = snd (ideal_run (KUnsigned 8) [] (map fst evs))) /\
-  (Forall signed64_op (map fst evs) -> history_ok (KSigned 8) (map fst evs) = true -> short_keys2 (KSigned 8) (map fst evs) ->
-   g_signed64_run evs g_init = snd (Api.run (KSigned 8) Api.init (map fst evs)) /\
-   g_signed64_run evs g_init = snd (ideal_run (KSigned 8) [] (map fst evs))) /\
-  (Forall float64_op (map fst evs) -> history_ok (KFloat 8) (map fst evs) = true -> short_keys2 (KFloat 8) (map fst evs) ->
-   g_float64_run evs g_init = snd (Api.run (KFloat 8) Api.init (map fst evs)) /\
-   g_float64_run evs g_init = snd (ideal_run (KFloat 8) [] (map fst evs))).
-Proof.
-  intros evs. split; [exact (gen_unsigned64_run_refines evs)|split; [exact (gen_signed64_run_refines evs)|exact (gen_float64_run_refines evs)]].
-Qed.
-Print Assumptions C07_regenerated_codec_in_the_loop.
+(* the numeric trees run with THIS regenerated codec in the loop (codec, tree, iterators and nodes all regenerated) are
+   the reference map on every history: Properties/C01.v, C01_regenerated_numeric_trees_codec_in_the_loop — a statement
+   about the trees, kept out of this file so that this property's obligations are the codec's only *)
 
 (* which codec each numeric tree holds (Gen/Bindings.v, regenerated from the struct declarations of trees.go): the
    unsigned / signed / float tree holds an UnsignedBinaryKey / SignedBinaryKey / FloatBinaryKey — the type whose
